@@ -1,5 +1,5 @@
 (* C14 - expansion is independent of the caller's scope and naming. *)
-From DW Require Import Proofs_reject Examples.
+From DW Require Import Proofs_reject Proofs_atoms Examples.
 Open Scope nat_scope.
 
 (* Every path to a trait the macro names is absolute (`::core::..`, `::zeroize::..`) unless a
@@ -101,9 +101,85 @@ Check C14_known_unqualified_names :
   (forall t g it vs v ty, In (repr_tok ty) (render_strategy t g it vs (SCast ViaCopy ty v))).
 Print Assumptions C14_known_unqualified_names.
 
+
+(* Census of EVERY token of EVERY generated impl (Atoms.v classifies each token of each template; the
+   erasure of the classified list is exactly the token list that Render.v produces and tie A compares
+   with the implementation).  Whatever the item, the attribute, the trait and the configuration, a
+   token of the expansion is one of:
+     - a keyword or punctuation mark of the fixed vocabulary KW (or `unsafe`),
+     - a path that starts with `::` - or with the path of the attribute's `crate = ..` option, which is
+       the only thing that changes a root -, or a name resolved relative to such a path,
+     - the name of the trait method being defined, a token of the item itself, a literal,
+     - an identifier introduced by the expansion, which starts with `__`,
+   or one of the scope-dependent names listed exhaustively here: the built-in attributes `inline` and
+   `automatically_derived`; the bare primitive names `bool`, `isize` and the twelve repr integer types
+   (known finding F9); the method names `from` (known finding F4), `cast` (inherent on raw pointers),
+   `zeroize` and `zeroize_or_on_drop` (method-call syntax by design, trait imported by the same body). *)
+Definition scope_free (dt : derive_trait) (a : atom) : Prop :=
+  match a with
+  | Kw s => mem s ("unsafe" :: KW) = true
+  | APath p => p_lead p = true \/ (exists q segs, dt_crate dt = Some q /\ p = path_from_root_and_strs q segs)
+  | Bind s => String.prefix "__" s = true
+  | Assoc _ | Def _ | User _ | Lit _ => True
+  | Attr s => mem s ATTRS = true
+  | Prim s => mem s PRIMS = true
+  | Method s => mem s METHODS = true
+  end.
+
+Theorem C14_census :
+  forall (c : cfg) (i : input) (w : dw) (dt : derive_trait),
+    Forall (scope_free dt) (timpl c i w dt) /\ erase (timpl c i w dt) = impl_toks (render_impl c i w dt).
+Proof.
+  intros c i w dt. split; [|apply erase_timpl].
+  apply census_timpl; cbn [scope_free]; try tauto; try (intros; reflexivity).
+  - intros s H. unfold mem in *. cbn [existsb]. rewrite H. apply orb_true_r.
+  - intros segs. unfold trait_crate. destruct (dt_trait dt); try (left; reflexivity);
+      destruct (dt_crate dt) as [q|] eqn:E; try (left; reflexivity); right; exists q, segs; split; reflexivity.
+Qed.
+
+Check C14_census :
+  forall (c : cfg) (i : input) (w : dw) (dt : derive_trait),
+    Forall (scope_free dt) (timpl c i w dt) /\ erase (timpl c i w dt) = impl_toks (render_impl c i w dt).
+Print Assumptions C14_census.
+
+(* without a `crate` option every path of the expansion is absolute *)
+Theorem C14_all_paths_absolute :
+  forall (c : cfg) (i : input) (w : dw) (dt : derive_trait) (p : path),
+    dt_crate dt = None -> In (APath p) (timpl c i w dt) -> p_lead p = true.
+Proof.
+  intros c i w dt p Hc Hin. destruct (C14_census c i w dt) as [F _]. rewrite Forall_forall in F.
+  destruct (F _ Hin) as [H|[q [segs [E _]]]]; [exact H | congruence].
+Qed.
+
+Check C14_all_paths_absolute :
+  forall (c : cfg) (i : input) (w : dw) (dt : derive_trait) (p : path),
+    dt_crate dt = None -> In (APath p) (timpl c i w dt) -> p_lead p = true.
+Print Assumptions C14_all_paths_absolute.
+
 Example C14_nonvacuous :
   self_ident (mkField SkipNone false (MNamed "r#type") []) = "__field_type" /\
   other_ident (mkField SkipNone false (MNamed "__field_a") []) = "__other_field___field_a" /\
   self_ident (mkField SkipNone false (MUnnamed 3) []) = "__field_3" /\
   flatten (path_toks (trait_path (mkDT Zeroize (Some (mkPath false ["my"; "z"]))))) = ["my"; ":"; ":"; "z"; ":"; ":"; "Zeroize"].
 Proof. repeat split; reflexivity. Qed.
+
+(* Non-vacuity of the census: the impl of Ord for ex_repr (default features) really contains an `unsafe`
+   keyword, the scope-dependent `from` and the primitive `u8`; under `safe` it contains none of the three;
+   its PartialEq impl contains the primitive `bool`. *)
+Definition has_atom (a : atom) (l : list atom) : bool :=
+  existsb (fun b => match a, b with
+                    | Kw x, Kw y | Prim x, Prim y | Method x, Method y => String.eqb x y
+                    | _, _ => false end) l.
+Example C14_census_nonvacuous :
+  exists i w, from_input cfg_default ex_repr = Ok i /\ In w (in_dws i) /\
+    has_atom (Kw "unsafe") (timpl cfg_default i w (mkDT Ord None)) = true /\
+    has_atom (Method "from") (timpl cfg_default i w (mkDT Ord None)) = true /\
+    has_atom (Prim "u8") (timpl cfg_default i w (mkDT Ord None)) = true /\
+    has_atom (Kw "unsafe") (timpl cfg_safe i w (mkDT Ord None)) = false /\
+    has_atom (Method "from") (timpl cfg_safe i w (mkDT Ord None)) = false /\
+    has_atom (Prim "bool") (timpl cfg_default i w (mkDT PartialEq None)) = true.
+Proof.
+  destruct (from_input cfg_default ex_repr) as [i| |] eqn:E; try (vm_compute in E; discriminate).
+  vm_compute in E. injection E as <-.
+  eexists; eexists. split; [reflexivity|]. split; [left; reflexivity|]. repeat split; vm_compute; reflexivity.
+Qed.
